@@ -196,6 +196,15 @@ def rules(ctx):
     for node, obj, f, kind, v in [w for w in ws if w[2] == '_degree' and w[3] == 'assign']:
         ok = isinstance(v, ast.Call) and is_name(v.func, 'max') and \
             any(src(a) == '%s._degree' % selfn for a in v.args)
+        if not ok:
+            # the conditional spelling of max: `if new > self._degree: self._degree = new`
+            from ..astutil import expand_names
+            gdeg = cfg_of(fn.node)
+            vt = src(expand_names(fn.node, v))
+            for t_, pol_, o_ in gdeg.edge_dominators(enclosing_stmt(node)):
+                fs = compare_atoms(expand_names(fn.node, t_), pol_)
+                if (vt, '>', '%s._degree' % selfn) in fs or (vt, '>=', '%s._degree' % selfn) in fs:
+                    ok = True
         ctx.inst('R14.3', fn, node, ok,
                  "degree grows by max" if ok else "degree assigned without max(self._degree, ...): can shrink "
                  "below the true degree")
